@@ -18,6 +18,7 @@ type Env struct {
 	st      *State
 	old     *Env
 	resolve func(name string) (*Term, bool)
+	resolveAddr func(name string) (*Term, bool) // &name: the reference of an address-taken local
 	where   string
 }
 
@@ -105,6 +106,14 @@ func (e *Env) tr(x ast.Expr) *Term {
 	case *ast.Ident:
 		return e.ident(x.Name)
 	case *ast.UnaryExpr:
+		if x.Op == token.AND {
+			if id, ok := x.X.(*ast.Ident); ok && e.resolveAddr != nil {
+				if t, ok := e.resolveAddr(id.Name); ok {
+					return t
+				}
+			}
+			e.fail("cannot take the address of %v here", x.X)
+		}
 		a := e.tr(x.X)
 		switch x.Op {
 		case token.NOT:
@@ -557,6 +566,7 @@ var builtinFuns = map[string]*FunDecl{
 	"bstr":    {Name: "bstr", Args: []Sort{SBytes}, Ret: SStr},
 	"bitand":  {Name: "bitand", Args: []Sort{SInt, SInt}, Ret: SInt},
 	"dyntype": {Name: "dyntype", Args: []Sort{SInt}, Ret: SInt},
+	"runestr": {Name: "runestr", Args: []Sort{SInt}, Ret: SStr},
 }
 
 // smtName sanitises a Go-ish name for use as an SMT symbol.
